@@ -1,5 +1,5 @@
 """Fill the detection matrix of DESIGN.md section 10.6 from a log of harness/seed_matrix.sh.
-usage: python3 harness/design_matrix.py <matrix log>"""
+usage: python3 harness/design_matrix.py <matrix log> [more logs]"""
 import collections
 import json
 import os
@@ -12,7 +12,8 @@ VERIF = os.path.dirname(HERE)
 
 def main():
     rows = collections.defaultdict(dict)
-    for l in open(sys.argv[1]):
+    lines = [l for f in sys.argv[1:] for l in open(f)]
+    for l in lines:
         m = re.match(r"seed=(\S+) check=(C\d+) rc=(\d+) violation=(\d) nofail=(\d) (\d+)s", l)
         if m:
             s, c, rc, v, nf, t = m.groups()
@@ -21,7 +22,8 @@ def main():
     out = ["| seeded change | what it changes | " + " | ".join(c[1:] for c in checks) + " |", "|---|---|" + "---|" * len(checks)]
 
     def key(s):
-        return (1 if s.startswith("round2") else 0, s)
+        m_ = re.match(r"round(\d+)-", s)
+        return (int(m_.group(1)) if m_ else 1, s)
     for s in sorted(rows, key=key):
         d = os.path.join(VERIF, "seeded", s.replace("-", "/"))
         try:
